@@ -79,6 +79,15 @@ def model_candidates(m):
         c = copy.deepcopy(m)
         c.pop("order")
         yield c
+    if m.get("assign_list"):
+        c = copy.deepcopy(m)
+        c.pop("assign_list")
+        yield c
+    for i, t in enumerate(m["tasks"]):
+        if t.get("name") is not None:
+            c = copy.deepcopy(m)
+            c["tasks"][i].pop("name")
+            yield c
     # simplify attributes
     for i, (a, b, k) in enumerate(m.get("deps", [])):
         if k != 0:
